@@ -1,10 +1,124 @@
-/- line-protocol handlers for the C17 Hvar subsetting model -/
-import FontVerif.Model.Base
+/- line-protocol handlers for the C17 HVAR/VVAR subsetting model (Model/SubsetHvar.lean)
+
+requests (space separated; sections introduced by single capital letters):
+  c17.hvar.table <retain 0|1> <axisCount>
+       R <nRegions> <start peak end>…                 (nRegions * axisCount triples)
+       T <nSubtables> { n | b | o <itemCount> <wordDeltaCount> <ric> <ri>… <hex delta sets> }…
+       P <nMaps> { n | m <entryFormat> <mapCount> <hex map data> }…
+       N <new old>… | -
+       G <gid>… | -
+  response: ok rl=<hex> subs=<hex>,… maps=<hex | null>,…   |  dropped | fail | trap
+  c17.hvar.store  same request; response: the retained old region indices and, per output subtable,
+       itemCount/wordDeltaCount/regionIndexes (plain data, for diagnosis)
+-/
+import FontVerif.Model.SubsetHvar
 namespace FontVerif.Drv.C17Hvar
-open FontVerif
+open FontVerif FontVerif.SubsetHvar
+
+def splitAt (marker : String) (args : List String) : Option (List String × List String) :=
+  let pre := args.takeWhile (· ≠ marker)
+  match args.dropWhile (· ≠ marker) with
+  | [] => none
+  | _ :: rest => some (pre, rest)
+
+def natList (ts : List String) : Option (List Nat) :=
+  if ts = ["-"] then some [] else parseNats? ts
+
+def pairs : List Nat → Option (List (Nat × Nat))
+  | [] => some []
+  | [_] => none
+  | a :: b :: rest => (pairs rest).map ((a, b) :: ·)
+
+def triples : List Int → Option (List (Int × Int × Int))
+  | [] => some []
+  | a :: b :: c :: rest => (triples rest).map ((a, b, c) :: ·)
+  | _ => none
+
+def chunk {α} (k : Nat) : Nat → List α → List (List α)
+  | 0, _ => []
+  | n + 1, xs => xs.take k :: chunk k n (xs.drop k)
+
+def parseSubs : Nat → List String → Option (List SubIn)
+  | 0, [] => some []
+  | 0, _ => none
+  | n + 1, "n" :: rest => (parseSubs n rest).map (SubIn.null :: ·)
+  | n + 1, "b" :: rest => (parseSubs n rest).map (SubIn.bad :: ·)
+  | n + 1, "o" :: ic :: wdc :: ric :: rest => do
+    let ic ← parseNat? ic
+    let wdc ← parseNat? wdc
+    let ric ← parseNat? ric
+    if rest.length < ric + 1 then none else
+    let ris ← parseNats? (rest.take ric)
+    let data ← parseHex? ((rest.drop ric).headD "")
+    let more ← parseSubs n (rest.drop (ric + 1))
+    some (SubIn.ok { itemCount := ic, wordDeltaCount := wdc, regionIndexes := ris, data } :: more)
+  | _, _ => none
+
+def parseMaps : Nat → List String → Option (List (Option MapIn))
+  | 0, [] => some []
+  | 0, _ => none
+  | n + 1, "n" :: rest => (parseMaps n rest).map (none :: ·)
+  | n + 1, "m" :: ef :: mc :: h :: rest => do
+    let ef ← parseNat? ef
+    let mc ← parseNat? mc
+    let data ← parseHex? h
+    let more ← parseMaps n rest
+    some (some { entryFormat := ef, mapCount := mc, data } :: more)
+  | _, _ => none
+
+def parseTable (args : List String) : Option TableIn := do
+  let (hd, rest) ← splitAt "R" args
+  let [retain, axisCount] ← parseNats? hd | none
+  let (r, rest) ← splitAt "T" rest
+  let (t, rest) ← splitAt "P" rest
+  let (p, rest) ← splitAt "N" rest
+  let (n, g) ← splitAt "G" rest
+  let nRegions :: rts := r | none
+  let nRegions ← parseNat? nRegions
+  let tr ← triples (← parseInts? rts)
+  if tr.length ≠ nRegions * axisCount then none else
+  let regions := chunk axisCount nRegions tr
+  let nSubs :: tts := t | none
+  let subs ← parseSubs (← parseNat? nSubs) tts
+  let nMaps :: pts := p | none
+  let maps ← parseMaps (← parseNat? nMaps) pts
+  let n2o ← pairs (← natList n)
+  let glyphset ← natList g
+  if retain > 1 then none else
+  some { axisCount, regions, subs, maps, n2o, glyphset, retainGids := retain = 1 }
+
+def errStr : Err → String
+  | .dropped => "dropped"
+  | .fail => "fail"
+  | .trap => "trap"
+
+def commaJoin (xs : List String) : String := if xs.isEmpty then "-" else ",".intercalate xs
+
+def fmtTable (o : TableOut) : String :=
+  let rl := toHex (regionListBytes o.store.axisCount o.store.regions)
+  let subs := commaJoin (o.store.subs.map fun st => toHex (subBytes st))
+  let maps := commaJoin (o.maps.map fun m => match m with
+    | none => "null"
+    | some m => toHex (mapBytes m))
+  s!"ok rl={rl} subs={subs} maps={maps}"
+
+def fmtStore (o : TableOut) : String :=
+  let subs := commaJoin (o.store.subs.map fun st =>
+    s!"{st.itemCount}/{st.wordDeltaCount}/{joinNats st.regionIndexes}")
+  s!"ok regions={joinNats o.store.regionMap} subs={subs}"
 
 def handle (cmd : String) (args : List String) : Option String :=
   match cmd with
+  | "c17.hvar.table" => do
+    let t ← parseTable args
+    match subsetTable t with
+    | .error e => some (errStr e)
+    | .ok o => some (fmtTable o)
+  | "c17.hvar.store" => do
+    let t ← parseTable args
+    match subsetTable t with
+    | .error e => some (errStr e)
+    | .ok o => some (fmtStore o)
   | _ => none
 
 end FontVerif.Drv.C17Hvar
